@@ -87,7 +87,9 @@ func (R *Repository) AddCRL(crlLocations *core.CRLLocations, chains *core.Certif
 	}
 
 	entry.entryLock.RLock()
-	lastUpdateSignatureVerifyFailed := entry.LastUpdateSignatureVerifyFailed
+	//the stored signature cert is only replaced for a crl which is in use. The store of an entry which is not loaded might
+	//hold a crl that was never verified, a signature cert in it would make it look verified after a restart
+	lastUpdateSignatureVerifyFailed := entry.LastUpdateSignatureVerifyFailed && entry.Loaded
 	entry.entryLock.RUnlock()
 	if lastUpdateSignatureVerifyFailed {
 		//check if the chain contains a new valid signing cert (takes the entry lock itself)
@@ -133,7 +135,7 @@ func (R *Repository) tryUpdateSignatureCertFromChain(entry *Entry, chains *core.
 	entry.entryLock.Lock()
 	defer entry.entryLock.Unlock()
 	//check if no other thread updated the signature in meantime
-	if entry.LastUpdateSignatureVerifyFailed == true {
+	if entry.LastUpdateSignatureVerifyFailed == true && entry.Loaded {
 		signature, err := verifyCRLSignature(entry.LastUpdateSignature, chains)
 		if err != nil {
 			R.logger.Warn("unable to find updated crl signature cert", zap.Error(err))
